@@ -1,5 +1,7 @@
 package diff
 
+import "sort"
+
 // This is a simple DSL for diffing arrays
 
 // fromArrayStruct utility struct to encompass diffing of string arrays
@@ -37,8 +39,13 @@ func (f fromArrayStruct) DiffsTo(toArray []string) (added, deleted, common []str
 			m[item] = inTo
 		}
 	}
-	for key, val := range m {
-		switch val {
+	keys := make([]string, 0, len(m))
+	for key := range m {
+		keys = append(keys, key)
+	}
+	sort.Strings(keys)
+	for _, key := range keys {
+		switch m[key] {
 		case inFrom:
 			deleted = append(deleted, key)
 		case inTo:
